@@ -29,8 +29,9 @@ two cooperating sites), round 4 (8 agents, history- or state-dependent
 changes), round 5 (8 agents, population- and threshold-dependent changes)
 round 6 (8 agents, ownership / unsafe memory handling and the API-level
 wrappers), round 7 (8 agents, sent to the functions nobody had touched) and
-round 8 (8 agents, wake-up paths and the code of the latest repairs)
-delivered %d changes that were
+round 8 (8 agents, wake-up paths and the code of the latest repairs) and
+round 9 (8 agents, the properties with the fewest seeds) delivered %d changes
+that were
 kept; each was re-confirmed in a scratch worktree (`tools/confirm_mutant.sh`:
 suite passes with it, demo fails with it and passes without) and run against
 the checks (`tools/try_mutant.sh`). `/verif/seeded/<id>/` holds `patch.diff`
@@ -68,11 +69,12 @@ switches code paths on how many tasks are parked (8) and scans lists whose
 length no scenario exceeded (3); E2 now sweeps 1..12 parked tasks and 1..12
 extra streams / handles / 8 extra senders, and compares the results of the
 long churn histories with the model. Misses per round (first try): 10 of 40,
-10 of 27, 4 of 25, 5 of 12, 5 of 15, 3 of 12, 2 of 7, 3 of 9 (in the last rounds
+10 of 27, 4 of 25, 5 of 12, 5 of 15, 3 of 12, 2 of 7, 3 of 9, 3 of 4 (in the last rounds
 about half of these were reported by the check of a neighbouring property and
-only the own property's scenario set or attribution was extended). Fifteen
-deliveries that repeated the site and mechanism of a stored seed were not
-kept twice — by round 7 more than half of what came back was a repeat: the
+only the own property's scenario set or attribution was extended). About
+twenty-five deliveries that repeated the site and mechanism of a stored seed
+were not kept twice — from round 7 on more than half of what came back was a
+repeat: the
 crate is 2 000 lines and the sub-agents are running out of new places.
 One round-7 sub-agent remarked in passing that its demonstration had used
 1.5 GB on the *unchanged* crate; that led to a genuine defect (section 9,
